@@ -1,5 +1,5 @@
 (** C09 — tasks are never forgotten, duplicated or wrongly adopted across crashes/faults. *)
-From Furiko Require Import Job.Core Job.Sync Proofs.JobP Proofs.SyncP.
+From Furiko Require Import Job.Core Job.Sync Job.World Proofs.JobP Proofs.SyncP Proofs.HistoryP.
 
 (** One creation attempt issues exactly one create for the request's deterministic name;
     an object already on that name is added to the Job's tasks only if this Job controls it
@@ -69,3 +69,35 @@ Proof.
   exists 100, [f4_ref], [], [new_pod "gezdqo" 0 100]. split; vm_compute; reflexivity.
 Qed.
 Print Assumptions c09_not_lost_refuted.
+
+
+(** never forgotten, over histories.  For every history of the one-Job world - reconcile
+    passes against caches that lag behind or have lost events, kubelet transitions, foreign
+    Pods, start / kill / delete by other actors, injected failures and conflicts of every
+    write: a task that is recorded in the Job's status in the API at some moment is recorded
+    at every later moment at which the Job still exists, and a Job that is gone stays gone.
+    (Every status the controller computes keeps the names it started from, and the API only
+    accepts a status computed from the current resourceVersion.) *)
+Theorem c09_recorded_forever :
+  forall cfg j0 now ops1 ops2,
+    let w1 := jrun_world cfg (init_jworld j0 now) ops1 in
+    let w2 := jrun_world cfg w1 ops2 in
+    (forall a1 a2, api_job w1 = Some a1 -> api_job w2 = Some a2 ->
+       forall n, In n (map tr_name (j_tasks a1)) -> In n (map tr_name (j_tasks a2))) /\
+    (api_job w1 = None -> api_job w2 = None).
+Proof. exact recorded_forever. Qed.
+Print Assumptions c09_recorded_forever.
+
+Definition ex_hist_job : job :=
+  mkJob ["aaaaaa"] false AllSuccessful 2 0 false false None false None None false true None (Some 10)
+        [] 0 0 None (CWaiting WPendingCreation) PhStarting SWaiting.
+Definition ex_hist_ops1 : list jop := [JSync; JAdvanceJob 5; JAdvancePods 5].
+Definition ex_hist_ops2 : list jop :=
+  [JKubelet "j-aaaaaa-0" KFail; JAdvancePods 5; JFault FUpdateStatus; JSync; JSync; JAdvanceJob 5; JAdvancePods 5; JSync].
+Example c09_history_nonvacuous :
+  let cfg := mkCfg (Some 900) (Some 900) (Some 3600) in
+  let w1 := jrun_world cfg (init_jworld ex_hist_job 100) ex_hist_ops1 in
+  let w2 := jrun_world cfg w1 ex_hist_ops2 in
+  option_map (fun a => map tr_name (j_tasks a)) (api_job w1) = Some ["j-aaaaaa-0"] /\
+  option_map (fun a => map tr_name (j_tasks a)) (api_job w2) = Some ["j-aaaaaa-0"; "j-aaaaaa-1"].
+Proof. vm_compute. split; reflexivity. Qed.
